@@ -284,6 +284,9 @@ async def exec_step(cl: Client, st: Dict[str, Any]):
     if cl.api is None:
         cl.api = cl.make_api()
         sim.rec("construct", cl.idx)
+    if kind == "aexit" and not getattr(cl, "entered", False):
+        # Python leaves an async context only after entering it succeeded; an unpaired step is the explicit call
+        kind = "disconnect"
     op = Op(st.get("uid"), kind, st.get("args", {}))
     cl.ops.append(op)
     op.seq0 = sim.seq
@@ -308,13 +311,22 @@ async def exec_step(cl: Client, st: Dict[str, Any]):
             res = None
         elif kind == "aenter":
             r = await cl.api.__aenter__()
+            cl.entered = True
             op.extra["returned_self"] = r is cl.api
             res = None
         elif kind == "aexit":
+            cl.entered = False
+            r = None
             if st.get("exc"):
                 ecls = body_exception_class(st.get("exc_kind"))
                 e = ecls("body failed")
-                r = await cl.api.__aexit__(ecls, e, None)
+                try:
+                    r = await cl.api.__aexit__(ecls, e, None)
+                except BaseException as got:  # noqa
+                    # an __aexit__ that re-raises the very exception it was handed has not failed
+                    if got is not e:
+                        raise
+                    op.extra["reraised_body_exception"] = True
             else:
                 r = await cl.api.__aexit__(None, None, None)
             op.extra["swallowed"] = bool(r)
